@@ -3,14 +3,17 @@ import os, collections
 CONFIG = {
     "rule": "case = one scope tree (module body with nested def/lambda/class/comprehension blocks, nesting <= 3; operations bind/use/global/nonlocal/del "
             "on names from {x, y, abs, __class__}; parameters of every kind incl. duplicates and defaults that read an enclosing name) rendered as Python source; "
-            "systematic part = every chain module>b1>b2 (>b3) x placement patterns of the operations of one name before/after the nested block x parameter variants, "
-            "random part = VERIF_SEED-derived trees with several children per block; every program is analysed 8 times by symtable.NewSymTable (Go map order varies) and then compiled and run; "
+            "systematic part = (a) every chain module>b1>b2 (>b3) x placement patterns of the operations of one name before/after the nested block x parameter variants, "
+            "(b) sibling families: every parent block (module; function binding x before/after its children or by a positional/default/*/kw-only/** parameter; class; function or class nested in a function binding x) x every ORDERED pair and triple of child scopes, "
+            "each child drawn independently from the full alphabet def/class/lambda/comprehension x use/bind/global/nonlocal/del sequences x a nested grandchild scope (class bodies with methods and comprehensions using the name the class binds); "
+            "random part = VERIF_SEED-derived trees with several children per block, plus a dense profile (1-2 names, 2-4 child scopes per block); "
+            "tag cpsens = the model without `temp_bound := bound.Copy()` gives a different table on this case (measured sensitivity to sibling aliasing of the bound set); every program is analysed 8 times by symtable.NewSymTable (Go map order varies) and then compiled and run; "
             "V = per-block scope classification of every name + the values every `use` printed + final exception class (or E:SyntaxError), R = def-use flags, exact scope, Varnames, NeedsClassClosure; "
             "non-trivial = the spec rejects the program, or some name is a cell/free/explicit-global, or the run ends in NameError/UnboundLocalError; distinct = distinct source text",
     "trusted_base": [
         "Lean 4.33.0 kernel; axioms allowed: propext, Classical.choice, Quot.sound (audited per theorem on every run)",
         "lean/GPy/C03/Spec.lean: my transcription of Python's scoping rules (language reference 4.1, 7.12, 7.13, 8.7; CPython's reading for `global` in an intermediate function) and of the run-time store (one location per variable per activation, class namespace dictionaries, defaults evaluated at def time)",
-        "lean/GPy/C03/Model.lean: hand transliteration of symtable/symtable.go (Parse/AddDef, AnalyzeName, AnalyzeCells, DropClassFree, Symbols.Update, AnalyzeBlock, AnalyzeChildBlock, Find), compile.go (NameOp scope->opcode table, slot arithmetic, getRefType, makeClosure, Cellvars/Freevars) and vm/eval.go (EvalCode cell set-up, LOAD/STORE/DELETE_{FAST,DEREF,GLOBAL,NAME}, LOAD_CLASSDEREF, LOAD_CLOSURE); Go maps are total functions, every `range` over a map is a fold over an arbitrarily permuted key list; tied to the repo by the correspondence run only",
+        "lean/GPy/C03/Model.lean: hand transliteration of symtable/symtable.go (Parse/AddDef, AnalyzeName, AnalyzeCells, DropClassFree, Symbols.Update, AnalyzeBlock, AnalyzeChildBlock, Find), compile.go (NameOp scope->opcode table, slot arithmetic, getRefType, makeClosure, Cellvars/Freevars) and vm/eval.go (EvalCode cell set-up, LOAD/STORE/DELETE_{FAST,DEREF,GLOBAL,NAME}, LOAD_CLASSDEREF, LOAD_CLOSURE); Go maps are total functions, every `range` over a map is a fold over an arbitrarily permuted key list; the three sets AnalyzeBlock hands to AnalyzeChildBlock are threaded through the children loop as state with `temp_bound := bound.Copy()` an explicit step; tied to the repo by the correspondence run only",
         "the rendering scope tree -> Python text (Gen.lean) and the gpython parser (parser.ParseString) producing the AST that text denotes",
         "harness/c03.go and checks/common.py (case transport, canonical dumps)",
     ],
